@@ -37,7 +37,8 @@ RULE = ('BFS from the empty stack over TICKET(self in {default,KT1x}, amount 0..
 BOUND = {'quick': 'all histories of <= 4 transitions from each of 5 roots: the empty stack, [ticket(self,"a",3)] and three two-ticket stacks '
                   '(same ticketer+contents / other ticketer / other contents), i.e. histories of up to 8 transitions from the empty '
                   'stack; TICKET and NIL are tried only on stacks of fewer than 3 slots',
-         'thorough': 'the same with <= 5 transitions from each root (up to 9 from the empty stack)'}
+         'thorough': 'the same with <= 5 transitions from each root, <= 6 from the two-ticket roots with the same key and with different '
+                     'ticketers (up to 10 transitions from the empty stack)'}
 ASSUMPTIONS = ['ticket values have no literal form: states are rebuilt by replaying their (shortest) history on the real '
                'instructions, successors by deep-copying that stack',
                'the ticketer is the SELF_ADDRESS of the execution context of the TICKET transition; tickets of a foreign '
@@ -487,8 +488,8 @@ def _mk(s, n, c):
 SEEDS = [
     ('empty', [], 4, 5),
     ('one ticket', _mk(0, 3, 'a'), 4, 5),
-    ('two tickets, same ticketer and contents', _mk(0, 3, 'a') + _mk(0, 2, 'a'), 4, 5),
-    ('two tickets, different ticketers', _mk(0, 3, 'a') + _mk(1, 2, 'a'), 4, 5),
+    ('two tickets, same ticketer and contents', _mk(0, 3, 'a') + _mk(0, 2, 'a'), 4, 6),
+    ('two tickets, different ticketers', _mk(0, 3, 'a') + _mk(1, 2, 'a'), 4, 6),
     ('two tickets, different contents', _mk(0, 3, 'a') + _mk(0, 2, 'b'), 4, 5),
 ]
 SPLIT_DEPTH = 2
